@@ -690,7 +690,22 @@ class StmtMixin:
         cands = [at(kterm, i0)]
         if info.seqval is not None and not info.seqval.is_py:
             cands.append(lift(info.seqval)[i0])
+        def has_ite(t_):
+            todo, seen_ = [t_], set()
+            while todo:
+                u = todo.pop()
+                if u.get_id() in seen_:
+                    continue
+                seen_.add(u.get_id())
+                if z3.is_app(u):
+                    if u.decl().kind() == z3.Z3_OP_ITE:
+                        return True
+                    todo.extend(u.children())
+            return False
+
         for cand in cands:
+            if has_ite(cand):
+                continue  # an ite cannot occur in a trigger (z3 prints a warning and rejects it)
             try:
                 z3.ForAll([i0], kdef, patterns=[cand])  # z3 rejects terms that cannot be triggers (ite, pure arithmetic, ..)
                 pats.append(cand)
@@ -1274,6 +1289,14 @@ class StmtMixin:
             s = v.ty.sort()
             tgt.assume(s.is_some(v.term))
             tgt.env[name] = Val(v.ty.inner, s.val(v.term))
+            # the ABSENT branch of an explicit `is None` / `is not None` test sees the constant None (so that it can be stored
+            # into a container of another Optional type)
+            if isinstance(test, ast.Compare) and name not in (getattr(self.c, "locals", {}) or {}) and name not in getattr(self, "_params", ()):
+                other = s_else if present_in_then else s_then
+                ov = other.env.get(name)
+                if ov is v:
+                    other.assume(s.is_nil(v.term))
+                    other.env[name] = Val.const(None)
 
     def feasible(self, st) -> bool:
         """Cheap in-process pruning of contradictory paths (unknown counts as feasible)."""
